@@ -604,7 +604,7 @@ def _container_standin(kind):
                         hypothesis.given(strat)(test)))()
             except (pa.errors.SchemaError, pa.errors.SchemaErrors) as e:
                 obj = failing[0][0]
-                return {"examples": case + 1, "bound": bound, "failing_input": {"schema": describe, "draw": obj.to_dict() if hasattr(obj, "to_dict") else [list(t) for t in obj]},
+                return {"examples": case + 1, "bound": bound, "failing_input": {"schema": describe, "draw": repr(obj.reset_index().to_dict("list") if hasattr(obj, "reset_index") else [list(t) for t in obj])[:1500]},
                         "observed": f"the schema rejects its own draw: {str(e)[:300]}"}
             except hypothesis.errors.HypothesisException:
                 reported += 1  # the strategy reported (Unsatisfiable / InvalidArgument / health check): allowed by the property
